@@ -26,7 +26,7 @@ K_SEARCH = "C08:log-api-returns-ignored-client-by-ip-when-anonymised"
 K_MEM = "C08:log-api-memory-entries-not-refiltered"
 
 ADDR_KINDS = ("ip", "cidr", "mac")
-ACTIONS = ["EmitUniverse", "Pick", "Record1", "Flush", "Reconf1", "Record2", "Reconf2"]
+ACTIONS = ["EmitUniverse", "Pick", "Record1", "Flush1", "Reconf1", "Record2", "Flush2", "Reconf2", "Record3", "Reconf3"]
 EXPECTED_VIOLATIONS = [
     # cfg, invariant that must be reported violated, what it demonstrates
     ("IgnoreAnon.asbuiltlog.cfg", "NoIgnoredLogged", "as-built lookup-after-anonymisation logs ignored clients"),
@@ -47,6 +47,7 @@ def classify_a(b):
             # client is identified by address bits that anonymisation removes.
             return K_LOG
         if v == "no:S:A" and addr_client:
+            # "anon" = the entry was recorded while anonymisation was on.
             return K_SEARCH
         if v.startswith("no:S:") and b.get("store") == "mem":
             return K_MEM
@@ -92,7 +93,10 @@ def describe_a(b):
 def tlc_part(ctx):
     """Half 1 + vector generation.  Returns (universe, scripts)."""
     with concurrent.futures.ThreadPoolExecutor(max_workers=5) as ex:
-        fgen = ex.submit(ctx.tlc, "IgnoreAnon", "IgnoreAnon.gen.cfg", workers=4, timeout=900, coverage=True)
+        # Quick: two list rotations and the pair-covering toggle plans (328
+        # scripts); thorough: all rotations and every toggle plan (1622).
+        gencfg = "IgnoreAnon.genquick.cfg" if ctx.quick else "IgnoreAnon.gen.cfg"
+        fgen = ex.submit(ctx.tlc, "IgnoreAnon", gencfg, workers=4 if ctx.quick else 6, timeout=1200, coverage=True)
         fexp = [(cfg, inv, why, ex.submit(ctx.tlc, "IgnoreAnon", cfg, workers=1, timeout=600, expect_violation=True, heap="2g"))
                 for cfg, inv, why in EXPECTED_VIOLATIONS]
         gen = fgen.result()
@@ -114,31 +118,46 @@ def tlc_part(ctx):
     scripts.sort(key=lambda v: json.dumps(v["par"], sort_keys=True))
     for i, s in enumerate(scripts):
         s["id"] = i
-    # Vacuity of the tables: every kind of verdict must occur.
+    # Vacuity of the tables: every kind of verdict must occur, and every ordered
+    # pair of (anonymise, log enabled, statistics enabled) states must occur as
+    # a reconfiguration step through either endpoint.
     seen = collections.Counter()
+    steps = set()
     for s in scripts:
-        for t in ("log", "cnt", "api1", "api1b", "api2"):
-            for x in s[t]:
+        for t in [s["log"], s["cnt"]] + list(s["api"]):
+            for x in t:
                 seen[x["v"]] += 1
+        sw = [(k["anon"], k["qlogOn"], k["statsOn"]) for k in s["k"]]
+        steps.update((s["par"]["ep"], sw[i], sw[i + 1]) for i in range(2))
     need = ["any", "no:R:N", "no:R:C", "no:R:A", "no:R:NC", "no:S:N", "no:S:C", "no:S:A"]
     lack = [v for v in need if not seen[v]]
     if lack:
         raise vlib.Inconclusive("vacuous tables: verdicts never produced: %s" % lack)
+    if len(steps) != 128:
+        raise vlib.Inconclusive("vacuous: only %d of 128 (endpoint, switch state, switch state) steps enumerated" % len(steps))
     return uni[0], scripts, demos, dict(seen)
+
+
+def steady(s):
+    return len({(k["anon"], k["qlogOn"], k["statsOn"]) for k in s["k"]}) == 1 and s["par"]["ep"] == "put" and s["k"][0]["qlogOn"] and s["k"][0]["statsOn"]
 
 
 def select(ctx, scripts):
     if not ctx.quick:
         return list(scripts)
-    # Quick: a seeded sample that still contains every client variant with
-    # anonymisation on and off.
+    # Quick: every toggle plan of the (pair-covering) universe, plus a seeded
+    # sample of the steady scripts that still contains every client variant
+    # with anonymisation on and off.
     rng = random.Random(ctx.seed)
     groups = collections.defaultdict(list)
-    for s in scripts:
-        groups[(json.dumps(s["par"]["client"], sort_keys=True), s["par"]["anon"])].append(s)
     sel = []
+    for s in scripts:
+        if steady(s):
+            groups[(json.dumps(s["par"]["client"], sort_keys=True), s["k"][0]["anon"])].append(s)
+        else:
+            sel.append(s)
     for k in sorted(groups):
-        sel += rng.sample(groups[k], min(len(groups[k]), 7))
+        sel += rng.sample(groups[k], min(len(groups[k]), 4))
     return sel
 
 
@@ -282,21 +301,21 @@ def run(ctx):
     nontrivial = 0
     for s in sel:
         qs = set()
-        for t in ("log", "cnt", "api1", "api1b", "api2"):
-            qs.update(tuple(x["q"]) + (t,) for x in s[t])
+        for ti, t in enumerate([s["log"], s["cnt"]] + list(s["api"])):
+            qs.update(tuple(x["q"]) + (ti,) for x in t)
         nontrivial += len(qs)
     qlines = [r for r in trows if r["t"] == "q"]
     samples = [
-        {"script": {k: sel[0][k] for k in ("par", "c0", "c1", "c2")}, "log_table_excerpt": sel[0]["log"][:6], "api2_table_excerpt": sel[0]["api2"][:6]},
+        {"script": {k: sel[0][k] for k in ("par", "k", "anonrep")}, "log_table_excerpt": sel[0]["log"][:6], "api_k3_table_excerpt": sel[0]["api"][2][:6]},
         {"script_result": srows[0]},
         {"trace_line": {k: qlines[0][k] for k in ("q", "api0", "file", "api1", "store", "concrete", "api0addr")}},
     ]
     cov = {
         "traces_validated_against_impl": len(sel) + len(trows),
         "scripts_generated": len(scripts), "scripts_replayed": len(sel),
-        "queries_per_script": 114, "evaluations": checked + len(trows),
+        "queries_per_script": 168, "evaluations": checked + len(trows),
         "distinct_nontrivial": nontrivial,
-        "rule": "one script per reachable terminal state of IgnoreAnon.tla (configuration x 2 reconfigurations); an evaluation is one "
+        "rule": "one script per reachable terminal state of IgnoreAnon.tla (configuration x toggle plan x endpoint, 3 recorded rounds, 3 reconfigurations); an evaluation is one "
                 "(observation point, query) or (observation point, counter) comparison; non-trivial = the spec demands absence or admits both "
                 "(verdict other than 'yes') for that (script, query, table); trace lines are random server lives validated by TraceIgnoreAnon.tla",
         "comparisons_absent_as_required": sum(r["absent_ok"] for r in srows),
@@ -306,6 +325,7 @@ def run(ctx):
         "trace_lines": len(trows), "trace_lines_rejected_reproduced": len(reproduced), "trace_expected_missing": tlost,
         "verdicts_in_tables": verdict_hist, "disagreements_by_class": dict(kinds),
         "design_level_demonstrations": demos, "binding_demo": binding, "truncated_by_known_finding": 0,
+        "toggle_plan_scripts_replayed": sum(1 for x in sel if not steady(x)),
         "exhaustive": len(sel) == len(scripts), "samples": samples,
     }
     return ctx.finish("model_checking", cov, assumptions=[
